@@ -516,16 +516,16 @@ def check_c06(ctx, cls, obj, X, col, kept, is_carver):
     out1 = obj.transform(X)
     out2 = loaded.transform(X)
     for c in out1.columns:
-        ctx.require(col_equal(list(out1[c]), list(out2[c])), "C06.transform-differs-after-reload", f"column {c}: {list(out1[c])} vs {list(out2[c])}")
+        ctx.require(col_equal(list(out1[c]), list(out2[c])), "C06.transform-differs-after-reload", f"column {c}: {list(out1[c])} vs {list(out2[c])}", dict(concrete_only=True))
     if obj.features:
         s1, s2 = obj.summary().reset_index().to_dict("records"), loaded.summary().reset_index().to_dict("records")
-        ctx.require(json.dumps(s1, default=str) == json.dumps(s2, default=str), "C06.summary-differs-after-reload", f"{s1} vs {s2}")
+        ctx.require(json.dumps(s1, default=str) == json.dumps(s2, default=str), "C06.summary-differs-after-reload", f"{s1} vs {s2}", dict(concrete_only=True))
     js2 = json.dumps(loaded.to_json())
     a, b = json.loads(js), json.loads(js2)
     a.pop("_history", None), b.pop("_history", None)
     for k_ in ("values_orders",):
         a[k_], b[k_] = json.loads(a[k_]), json.loads(b[k_])
-    ctx.require(a == b, "C06.reserialisation-differs", f"{a} vs {b}")
+    ctx.require(a == b, "C06.reserialisation-differs", f"{a} vs {b}", dict(concrete_only=True))
 
 
 def check_c16(ctx, cls, obj, X, col, kept, is_carver, companions):
